@@ -64,6 +64,10 @@ pub struct Case {
 
 impl Case {
     pub fn new(kind: Kind, prog: Vec<u8>, class: &str) -> Case {
+        // exact-size allocation: a read or write past the last instruction leaves the allocation
+        // (visible to ASan, valgrind and Miri) instead of landing in the Vec's spare capacity
+        let mut prog = prog;
+        prog.shrink_to_fit();
         Case {
             kind,
             prog,
